@@ -8,6 +8,7 @@ from sums import SumGen, run_sum, sum_class, tok_sexpr, ser_sum_result
 from c04img import run_image_stream
 from c04cat import run_cat_stream
 from c04ob import run_obmap_stream, make_ob, flavours_for
+from c04mix import run_monoidal_on_rigid, run_total_boxmap
 
 PROP = "C04"
 TARGET = ["p", "q", "r"]
@@ -24,11 +25,11 @@ def img_ty(obmap, t):
     return out
 
 
-def gen_functor(rng, rigid, boxes, malformed=False):
+def gen_functor(rng, rigid, boxes, malformed=False, names=("a", "b", "c", "d")):
     """Random object map (images of length 0-3) and box map (images 0-4 boxes deep)."""
     tg = Gen(rng, rigid=rigid, maxw=7, names=TARGET)
     obmap = {}
-    for n in ["a", "b", "c", "d"]:
+    for n in names:
         k = rng.choice([0, 1, 1, 1, 2, 2, 3])
         obmap[n] = tg.ty(k, k)
     armap = []
@@ -137,7 +138,15 @@ def run(tier, seed, replay=None):
                 "Mapping, dict with __missing__, lambda t: t / t @ t / Ty()) x image length 0-3 x winding "
                 "number -2..2 x shapes (types and their .l .r .l.l .r.r .l.r, Id, boxes with adjoints, "
                 "composite, Cup / Cap in both orientations, nested cups / caps, transposes, snake); every "
-                "third case of the main stream uses one of these flavours; non-trivial = rigid with z != 0")
+                "third case of the main stream uses one of these flavours; non-trivial = rigid with z != 0; "
+                "monoidal-on-rigid stream: monoidal.Functor on rigid types / diagrams (generic and daggered boxes, "
+                "swaps) where one name occurs with several winding numbers, each (name, z) with its own image of "
+                "length 0-3 (monoidal or rigid target), 6 object-map forms x 3 box-map forms, every fifth case "
+                "with all z = 0; non-trivial = rigid source of >= 2 objects / >= 1 box; total-box-map stream: "
+                "rigid (monoidal every fourth) functors, 10 box-map forms of which 6 answer for every box incl. "
+                "cups / caps / swaps x 3 object-map forms, object images of length 0-3, random diagrams of 1-6 "
+                "boxes with cups / caps / swaps + pinned Cup / Cap / snake / swap sweep; non-trivial = rigid with "
+                "a cup, cap or swap")
     rep.partial = ["F_dagger, F_sum_dagger: proved under the box-level dagger law only (false as == for "
                    "Swap(x, y) with two multi-wire images: finding F6, decided witness F6_swap_witness)",
                    "images of bubbles (cat.py:836-838) are not modelled",
@@ -153,7 +162,12 @@ def run(tier, seed, replay=None):
                    "theorem states that embedding; bubble / Sum-box images at the cat level oracle only",
                    "object maps: the model receives every flavour as its base-object table (Functor.ob1 derives "
                    "adjoints from the base image, F_adjoint_l / F_adjoint_r); Python's dispatch on "
-                   "Mapping / callable / __contains__ is not modelled"]
+                   "Mapping / callable / __contains__ is not modelled",
+                   "monoidal functor on rigid sources: compared with the monoidal model on the un-renamed request "
+                   "((name, z) -> a fresh name); no theorem states that embedding; cups / caps are not put in these "
+                   "sources (generic boxes for a monoidal functor)",
+                   "total box maps: `box in ar` for callables / Mappings is not modelled; the model never consults "
+                   "the box map for cups / caps / swaps (F_cup, F_cap, F_swap)"]
     import os, sys, time
     t0 = time.time()
     lap = (lambda what: sys.stderr.write("[c04 %s %.1fs]\n" % (what, time.time() - t0))) \
@@ -345,6 +359,14 @@ def run(tier, seed, replay=None):
         run_obmap_stream(rep, drv, fams, random.Random(seed * 15485863 + 17),
                          1, per_cell=5 if tier == "quick" else None)
         lap("obmap")
+        # ---- a MONOIDAL functor on rigid sources: every (name, winding number) its own generator
+        run_monoidal_on_rigid(rep, drv, fams, random.Random(seed * 32452843 + 61),
+                              120 if tier == "quick" else 1500, gen_functor, tok_functor)
+        lap("monoidal_on_rigid")
+        # ---- TOTAL callable box maps (answering for cups / caps / swaps too) x object-map forms
+        run_total_boxmap(rep, drv, fams, random.Random(seed * 49979687 + 67),
+                         45 if tier == "quick" else 600, gen_functor, tok_functor)
+        lap("total_boxmap")
     finally:
         drv.close()
     return rep.finish()
